@@ -17,6 +17,10 @@ def main():
     except ValueError:
         seed = 0
     import msdm  # noqa: F401  (imported in the parent so forked workers share it)
+    want = os.environ.get('VERIF_REPO', '/repo')
+    if not os.path.abspath(msdm.__file__).startswith(os.path.abspath(want) + os.sep):
+        print(f'HARNESS-ERROR: msdm imported from {msdm.__file__}, expected under {want}')
+        sys.exit(2)
     mod = importlib.import_module('props.' + a.prop)
     from mc import run
     rc = run.run(mod, a.tier, seed, workers=a.workers, replay_path=a.replay)
